@@ -442,6 +442,46 @@ func runC17(ctx *h.Ctx) int {
 		k.Count("after_error_pairs_equal", 1)
 		k.Nontrivial("aftererr", after.OK(), len(after.Out)/64)
 	})
+	// (b0) an AutoVar command used with different numbers of arguments in several scripts, under a command config
+	// with unusual positions (negative ones may mean "from the end" to a future compiler): whether and how a script
+	// compiles must not depend on the scripts before it - in one file, and across compilations sharing the config
+	ctx.RunCases("autovar-config-independence", ctx.N(120, 3000), func(k *h.Case) {
+		pos := []int{-1, -2, 0, 1, 5}[k.R.IntN(5)]
+		cfg := parser.CommandConfig{AutoVarCommands: map[string]parser.AutoVarCommand{"callfunc": {VarNameArgPosition: &pos}}}
+		mk := func(name string, nargs int) string {
+			args := []string{"F_" + name}
+			for i := 1; i < nargs; i++ {
+				args = append(args, fmt.Sprintf("VAR_%s_%d", name, i))
+			}
+			return "script " + name + " {\n  if (callfunc(" + strings.Join(args, ", ") + ") == 1) {\n    lock\n  }\n}\n"
+		}
+		a, b := mk("ScrFirst", 2+k.R.IntN(2)), mk("ScrSecond", 3+k.R.IntN(3))
+		o := h.Opts{Optimize: k.R.IntN(2) == 0, Cfg: cfg}
+		k.SetSource(a + b)
+		posFresh := pos
+		oFresh := o
+		oFresh.Cfg = parser.CommandConfig{AutoVarCommands: map[string]parser.AutoVarCommand{"callfunc": {VarNameArgPosition: &posFresh}}}
+		alone := c17Compile(b, oFresh) // reference: a config object of its own
+		both := h.Compile(a+b, o)
+		after := c17Compile(b, o) // the config object that was used for the file containing the first script
+		k.Count("evaluations", 3)
+		if after != alone {
+			k.Violation("config-history", fmt.Sprintf("[position %d] the second script compiled alone before and after another compilation with the same command config: %q vs %q; outputs equal: %v", pos, alone.Err, after.Err, alone.Out == after.Out), map[string]interface{}{"first": alone.Out, "now": after.Out})
+			return
+		}
+		if both.OK() && alone.Err == "" {
+			i := strings.Index(both.Out, "ScrSecond::")
+			if i < 0 || strings.TrimRight(both.Out[i:], "\n") != strings.TrimRight(alone.Out, "\n") {
+				k.Violation("autovar-dependence", fmt.Sprintf("[position %d] the code of the second script differs when the first one precedes it in the file", pos), map[string]interface{}{"alone": alone.Out, "in_file": both.Out})
+				return
+			}
+			k.Count("autovar_config_scripts_equal", 1)
+		} else if both.OK() != (alone.Err == "") && !(alone.Err == "" && !both.OK()) {
+			k.Violation("autovar-dependence", fmt.Sprintf("[position %d] the second script is rejected on its own (%s) but the file with both scripts compiles", pos, alone.Err), nil)
+			return
+		}
+		k.Nontrivial("avcfg", pos, alone.Err == "", both.OK())
+	})
 	// (b) independence from the other top-level statements
 	ctx.RunCases("independence", ctx.N(1500, 100000), func(k *h.Case) {
 		prof := profFull()
